@@ -822,6 +822,117 @@ def r4(F, R):
     R.floor("C14-R4", 12)
 
 
+def r8(F, R):
+    """Phase switch first: a draw is accounted to the phase (warm-up / sampling) that is current after the switch block has run."""
+    from .facts import _rvalue_operands
+    R.rule("C14-R8", "in a backend whose record_sample switches from the warm-up to the sampling containers (a branch on the remembered phase flag and "
+                     "info.tuning), nothing of the current draw (`stats`, `draws` parameters) is read before that branch: a value, count or event observed "
+                     "before the switch is attributed to the warm-up phase although the draw is the first sampling draw")
+    n = 0
+    for b in F.trait_method_impls("ChainStorage", "record_sample"):
+        names = {b.local_name(i): i for i in range(1, b.arg_count + 1)}
+        data_args = {i for nm, i in names.items() if nm in ("stats", "draws")}
+        if len(data_args) != 2:
+            # parameters renamed: take the two Vec<(&str, Option<Value>)> parameters
+            data_args = {i for i in range(1, b.arg_count + 1) if "Option<nuts_storable::Value>" in (b.local_ty(i) or "") and (b.local_ty(i) or "").startswith("std::vec::Vec<")}
+        # the phase switch: the branch under which the remembered phase flag (a bool field of self) is cleared (`self.flag = false`)
+        W = []
+        for bi, blk in enumerate(b.blocks):
+            if blk["cleanup"]:
+                continue
+            for st in blk["stmts"]:
+                if st["k"] == "assign" and st["pl"]["l"] == 1 and st["pl"]["p"] and isinstance(st["pl"]["p"][-1], dict) and st["pl"]["p"][-1].get("ty") == "bool":
+                    v = b.rvalue_value(st["rv"])
+                    if v[0] == "const" and v[2] == "false":
+                        W.append((bi, st["pl"]["p"][-1].get("n")))
+        if not W:
+            continue        # backends without a phase switch in record_sample (one container family, or routing by info.tuning per value)
+        wb_, flag = W[0]
+        sw = []
+        for (a, _s) in b.control_deps_trans(wb_):
+            t = b.blocks[a]["term"]
+            if t["k"] == "switch" and t.get("discr_ty") == "bool":
+                sl = b.slice([t["discr"]], control=False)
+                if flag in sl["fields"] or "tuning" in sl["fields"]:
+                    sw.append(a)
+        first = [x for x in sw if all(b.dominates(x, y) for y in sw)]
+        if not first:
+            R.bad("C14-R8", b.path + ":switch", "%s @%s" % (b.path, b.loc()), "cannot find the branch that clears the phase flag `%s`" % flag)
+            continue
+        S = first[0]
+        n += 1
+        early = []
+        for bi, blk in enumerate(b.blocks):
+            if blk["cleanup"] or b.dominates(S, bi) or bi not in b.reach_from(0):
+                continue
+            used = False
+            for st in blk["stmts"]:
+                if st["k"] == "assign":
+                    for o in _rvalue_operands(st["rv"]):
+                        if o.get("k") in ("copy", "move") and o["pl"]["l"] in data_args:
+                            used = True
+                    if st["rv"]["k"] in ("ref", "rawptr") and st["rv"]["pl"]["l"] in data_args:
+                        used = True
+            t = blk["term"]
+            if t["k"] == "call":
+                for a in t["args"]:
+                    if a["k"] in ("copy", "move") and K.root_local(b, a) in data_args:
+                        used = True
+            if used:
+                early.append(loc((blk["term"].get("span") or b.span)))
+        key = b.path + ":phase-switch-first"
+        site = "%s @%s" % (b.path, loc(b.blocks[S]["term"].get("span") or b.span))
+        if early:
+            R.bad("C14-R8", key, site, "the draw's values are read before the warm-up -> sampling switch (%s): what is derived from them there lands in the warm-up phase" % ", ".join(sorted(set(early))[:3]))
+        else:
+            R.ok("C14-R8", key, site, "the phase switch dominates every read of the draw's values")
+    R.floor("C14-R8", 2 if "zarr" in (C10f(F)) else 0)
+
+
+def C10f(F):
+    from . import c10
+    return c10.features(F)
+
+
+
+BUF_BYPASS = ("buffer", "get_ref", "get_mut", "into_parts", "into_inner")
+
+
+def r9(F, R, P):
+    """Buffered writers are written through, never around."""
+    R.rule("C14-R9", "no storage backend reaches around a std::io::BufWriter (%s): bytes handed to the inner file while the same bytes are still "
+                     "in the buffer are written twice (rows and header duplicated), bytes written around a non-empty buffer land in the wrong order" % ", ".join(BUF_BYPASS))
+
+    def scan(FF):
+        out = []
+        for b in sorted(FF.bodies.values(), key=lambda x: x.path):
+            for bb, t in b.calls():
+                c = t["callee"]
+                pth = strip_generics(c.get("path", ""))
+                if "BufWriter" in pth and pth.split("::")[-1] in BUF_BYPASS:
+                    out.append((b, t, pth))
+        return out
+    nw = 0
+    for b in F.bodies.values():
+        for bb, t in b.calls():
+            if "BufWriter" in strip_generics(t["callee"].get("path", "")):
+                nw += 1
+    for (b, t, pth) in scan(F):
+        if pth.endswith("into_inner"):
+            # consuming the writer flushes it first; allowed
+            R.ok("C14-R9", "%s:%s" % (b.path, pth.split("::")[-1]), "%s @%s" % (b.path, loc(t["span"])), "into_inner flushes before handing out the file")
+            continue
+        R.bad("C14-R9", "%s:%s" % (b.path, pth.split("::")[-1]), "%s @%s" % (b.path, loc(t["span"])), "%s reaches around the buffered writer" % pth)
+    R.ok("C14-R9", "scan", "library crates", "%d BufWriter call sites scanned" % nw)
+    got = {b.path.split("::")[-1] for (b, _t, _p) in scan(P)}
+    if "c14_bufwriter_bypass" in got:
+        R.ok("C14-R9", "positive-control", "fixtures/positive", "matcher reports the planted get_ref()/buffer() bypass")
+    else:
+        R.bad("C14-R9", "positive-control", "fixtures/positive", "matcher failed to report the planted BufWriter bypass")
+    R.floor("C14-R9", 2)
+
+
+
 def run(F, R, config="all"):
     r1(F, R)
     r2(F, R)
@@ -831,3 +942,5 @@ def run(F, R, config="all"):
     r5(F, R)
     r6(F, R)
     r7(F, R)
+    r8(F, R)
+    r9(F, R, P)
